@@ -440,6 +440,31 @@ def run(case):
                 if fam.endswith("mini"):
                     uex[np.unique(mesh.cells[:, -1])] = 0
                 c.close(f"phases/items={ilab}/displacement", "displacement field of the two-phase body = homogeneous deformation", job.res.x[0].values, uex, scale=max(np.abs(uex).max(), 1e-3))
+        # the condensed (nearly-incompressible) body with the same energy, mu/2 (J^-2/3 I1 - 3) + K/2 (J - 1)^2: created before
+        # loading, RE-CREATED on the deformed field between two steps (restart), and created on a field that already holds the
+        # exact solution of the first level -- every recorded force and final field is the analytic one
+        if kind == "uniaxial" and n == 1 and mat == "NeoHooke":
+            for how in ("created-first", "restart", "created-on-solution"):
+                mesh, region, twin = build(fam, "distorted", seed, n=n)
+                Fcls = fem.Field if d == 3 else fem.FieldPlaneStrain
+                field = fem.FieldContainer([Fcls(region, dim=d)])
+                lams = (1.2, 1.45)
+                sols = [solve_free(W, {0: lm}, [1, 2]) if d == 3 else solve_free(W, {0: lm, 2: 1.0}, [1]) for lm in lams]
+                if how == "created-on-solution":
+                    field[0].values[:] = mesh.points @ (np.diag(sols[0][:d]) - np.eye(d)).T
+                body = fem.SolidBodyNearlyIncompressible(fem.NeoHooke(mu=1.0), field, bulk=5.0)
+                bounds, lc = fem.dof.uniaxial(field, clamped=False, move=0.0, axis=0, sym=True)
+                for i_, lm in enumerate(lams):
+                    if how == "restart" and i_ == 1:
+                        body = fem.SolidBodyNearlyIncompressible(fem.NeoHooke(mu=1.0), field, bulk=5.0)
+                    step = fem.Step([body], ramp={bounds["move"]: [lm - 1]}, boundaries=bounds)
+                    job = fem.CharacteristicCurve(steps=[step], boundary=bounds["move"])
+                    job.evaluate(verbose=False)
+                    c.trans += 1
+                    P11 = dW(W, sols[i_], 0)
+                    c.close(f"condensed/{how}/level{i_}/force", "recorded force of the condensed body = analytic stress x area", np.array(job.y)[-1][0], P11, scale=max(abs(P11), 0.1))
+                    uex = mesh.points @ (np.diag(sols[i_][:d]) - np.eye(d)).T
+                    c.close(f"condensed/{how}/level{i_}/displacement", "displacement field of the condensed body = homogeneous deformation with the analytic transverse stretch", field[0].values, uex, scale=max(np.abs(uex).max(), 1e-3))
         for lam, us in finals.items():
             for k in range(1, len(us)):
                 c.close(f"lam={lam}/subdivision-independence/{k}", "final state independent of the ramp subdivision", us[k], us[0], scale=max(np.abs(us[0]).max(), 1e-3))
